@@ -55,7 +55,7 @@ var c01Lits = []string{"0", "1", "-1", "2147483647", "-2147483648", "2147483648"
 	"1 'mg'", "0 days", "5 years", "1.5 'kg'", "-3 months", "%v", "%e", "%m", "%missing", "$this", "Patient", "Patient.name", "Patient.name.given", "Patient.birthDate", "Patient.active", "Patient.name.first()", "(1 | 2)", "Patient.nosuch"}
 
 func runC01(c *Ctx) {
-	c.meta.Rule = "(a) generated programs (ProgGen, depth 1..4) over generated resources of every R4 type (quick: 40 types x 6 programs, thorough: all x 25); (b) every function of the table x arities 0..3 x argument texts from a 48-entry boundary pool x 6 input expressions; (c) 22 binary operators, polarity, is/as, indexer x boundary operands; (d) byte-mutated sources; (e) EvaluateAsBool/String/Int32 on a sample; (b') every 1-/2-argument function x the square of 8 boundary integers x 5 receivers; string literals cut inside an escape; (c') 22 operators x the full square of 21 numeric/quantity operands; (f) patch add/insert/delete/replace/move x paths x {right, wrong, nil} values x nil resource; (g) evaluation and patch over messages whose choice / contained-resource wrappers and primitives are empty; non-trivial = call returned a value; distinct by source text"
+	c.meta.Rule = "(a) generated programs (ProgGen, depth 1..4) over generated resources of every R4 type (quick: 40 types x 6 programs, thorough: all x 25); (b) every function of the table x arities 0..3 x argument texts from a 48-entry boundary pool x 6 input expressions; (c) 22 binary operators, polarity, is/as, indexer x boundary operands; (d) byte-mutated sources; (e) EvaluateAsBool/String/Int32 on a sample; (b') every 1-/2-argument function x the square of 8 boundary integers x 5 receivers; string literals cut inside an escape; (c') 22 operators x the full square of 21 numeric/quantity operands; (f) patch add/insert/delete/replace/move x paths x {right, wrong, nil} values x nil resource; (g) evaluation and patch over messages whose choice / contained-resource wrappers and primitives are empty; (h) elements without a System value (quantity without value, non-numeric decimals, unreadable zones, unset precisions, enum numbers outside the value set) x every operator on both sides, every 0/1-argument function, is/as/ofType, the typed helpers and the System comparison API; non-trivial = call returned a value; distinct by source text"
 	input := []fhir.Resource{mustResource(`{"resourceType":"Patient","id":"p","active":true,"birthDate":"1980-02-29","name":[{"family":"Smith","given":["a","b"]},{"given":["c"]}],"extension":[{"url":"u","valueQuantity":{"unit":"mg"}}]}`)}
 	env := []fhirpath.EvaluateOption{
 		envVar("v", system.Collection{system.Integer(3), system.String("s")}),
@@ -448,5 +448,7 @@ func runC01(c *Ctx) {
 		})
 		c.Law(!pan, "C01/patch-panic", "every FHIRPatch call returns nil or an error", op+" on a nil resource", msg)
 	}
+	// ---- (h) ill-formed primitive elements x every way of converting them
+	runC01Ill(c, run)
 	_ = decimal.Zero
 }
